@@ -1109,6 +1109,36 @@ func (s *c16Session) line(op string) {
 		s.book = c16NewBook()
 		s.hist = []string{"reset"}
 	}
+	if (w[0] == "gidx" && len(w) == 2 && c16IsHex(w[1])) || (w[0] == "gnm" && len(w) == 2 && c16IsInt(w[1], false)) {
+		// pure reads: GetSheetIndex / GetSheetName on the current workbook (Lean: index_name_inverse)
+		var res, want string
+		if w[0] == "gidx" {
+			n := unhx(w[1])
+			if j, err := s.f.GetSheetIndex(n); err != nil {
+				res = "ERR"
+			} else {
+				res = strconv.Itoa(j)
+			}
+			want = "ERR"
+			if c16Valid(n) {
+				want = strconv.Itoa(s.book.find(n))
+			}
+		} else {
+			i, _ := strconv.Atoi(w[1])
+			res = "n:" + hx(s.f.GetSheetName(i))
+			want = "n:" + hx("")
+			if i < len(s.book.ents) {
+				want = "n:" + hx(s.book.ents[i].name)
+			}
+		}
+		ln := r.Op(op, res)
+		r.Stat("op:" + w[0])
+		if res != want && s.fails == 0 {
+			s.fails++
+			r.Fail("getter:"+w[0], fmt.Sprintf("%s answered %s, the list model expects %s", op, res, want), ln, strings.Join(append(append([]string{}, s.hist...), op), "\n"))
+		}
+		return
+	}
 	if !c16WellFormed(w) {
 		r.Op(op, "bad-op")
 		r.Stat("op:bad-op")
@@ -1440,6 +1470,18 @@ func runC16(r *Run, rng *Rng, replay string) {
 			if delName != "" && len(s.book.ents) < before {
 				g.dead = append(g.dead, delName)
 			}
+			if i%3 == 0 {
+				// pure reads compared with the model (no randomness drawn: the histories stay the same):
+				// the name the call just used (existing, deleted, fresh or malformed), a listed name in
+				// upper case, an index from 0 to len+1
+				if len(w) > 1 && c16IsHex(w[1]) && w[0] != "grp" {
+					s.line("gidx " + w[1])
+				}
+				if n := len(s.book.ents); n > 0 {
+					s.line("gidx " + hx(c16Upper(s.book.ents[(i/3)%n].name)))
+					s.line("gnm " + strconv.Itoa((i/3)%(n+2)))
+				}
+			}
 			if rng.Chance(3) {
 				s.reopen()
 			}
@@ -1463,7 +1505,7 @@ func runC16(r *Run, rng *Rng, replay string) {
 		c16RenameTextProbe(r, rng)
 	}
 	// malformed lines: the driver must answer bad-op
-	for _, l := range []string{"new", "new zz", "copy a b", "vis 61", "frobnicate 1", "act x", "setc 61 -3", "defn x 61"} {
+	for _, l := range []string{"new", "new zz", "copy a b", "vis 61", "frobnicate 1", "act x", "setc 61 -3", "defn x 61", "gidx zz", "gnm -1", "gnm 1234567890", "gidx 5368656574", "gnm 0", "gnm 7"} {
 		s.line(l)
 	}
 	for _, x := range r.opsSample(6) {
